@@ -460,13 +460,29 @@ impl TransactionBuilder {
             output_total = output_total.checked_add(&Value::new(&input_fee))?;
         }
 
+        // tokens the transaction burns have to come from inputs as well, and the two ADA-only strategies do not
+        // collect tokens
+        let tokens_uncovered = match &output_total.multiasset {
+            None => false,
+            Some(need) => {
+                let have = input_total.multiasset.clone().unwrap_or(MultiAsset::new());
+                need.0.iter().any(|(policy, assets)| {
+                    assets
+                        .0
+                        .iter()
+                        .any(|(name, quantity)| &have.get_asset(policy, name) < quantity)
+                })
+            }
+        };
+
         match strategy {
             CoinSelectionStrategyCIP2::LargestFirst => {
-                if self
-                    .outputs
-                    .0
-                    .iter()
-                    .any(|output| output.amount.multiasset.is_some())
+                if tokens_uncovered
+                    || self
+                        .outputs
+                        .0
+                        .iter()
+                        .any(|output| output.amount.multiasset.is_some())
                 {
                     return Err(JsError::from_str("Multiasset values not supported by LargestFirst. Please use LargestFirstMultiAsset"));
                 }
@@ -479,11 +495,12 @@ impl TransactionBuilder {
                 )?;
             }
             CoinSelectionStrategyCIP2::RandomImprove => {
-                if self
-                    .outputs
-                    .0
-                    .iter()
-                    .any(|output| output.amount.multiasset.is_some())
+                if tokens_uncovered
+                    || self
+                        .outputs
+                        .0
+                        .iter()
+                        .any(|output| output.amount.multiasset.is_some())
                 {
                     return Err(JsError::from_str("Multiasset values not supported by RandomImprove. Please use RandomImproveMultiAsset"));
                 }
